@@ -373,3 +373,164 @@ _base_scn_uc = scenarios
 
 def scenarios():
     return _base_scn_uc() + [uid_or_copy()]
+
+
+def key_parse(shape_name, shape):
+    """PGPKey.parse (import of a transferable key): which object every packet ends up on. `shape` is the packet sequence the reader
+    yields (the packet reader itself is given by contract: one packet per call, consuming its octets from the front of the buffer):
+      K primary key, S signature, U user id, A user attribute, B subkey, T trust packet (dropped),
+      O signature packet of an unknown version (skipped), X packet with an unknown tag (dropped together with the signatures after it)
+    Expected (RFC 4880 11.1): signatures attach to the key / identity / subkey before them; identities and subkeys to the most recent
+    primary key; a second primary key starts a new key, returned in the dict of further keys."""
+    label = 'C14/PGPKey.parse[%s]' % shape_name
+    PK, T = 'pgpy.packet.packets.', 'pgpy.packet.types.'
+    CLS = {'K': PK + 'PubKeyV4', 'S': PK + 'SignatureV4', 'U': PK + 'UserID', 'A': PK + 'UserAttribute', 'B': PK + 'PubSubKeyV4',
+           'T': PK + 'Trust', 'O': T + 'Opaque', 'X': T + 'Opaque', 'k': PK + 'PrivKeyV4', 'b': PK + 'PrivSubKeyV4'}
+    # a token is a letter, optionally followed by a digit naming the key identity (K1 and k1: public and private form of the same key)
+    import re as _re
+    tokens = _re.findall(r'[A-Za-z]\d?', shape)
+    ident = [t[1:] or str(i) for i, t in enumerate(tokens)]
+    shape = ''.join(t[0] for t in tokens)
+    isprim = lambda c: c in 'Kk'
+    issub = lambda c: c in 'Bb'
+    UID = 'pgpy.pgp.PGPUID'
+
+    def gen(repo):
+        r = scn.Run(repo, KEY, 'parse', label)
+        ex, st = r.ex, r.st
+        me = E.VObj(KEY, 'self')
+        r.set('self', '_key', E.VNone())
+        PTAG = repo.enum_members('pgpy.constants.PacketTag')
+        tags = {'K': 'PublicKey', 'S': 'Signature', 'U': 'UserID', 'A': 'UserAttribute', 'B': 'PublicSubKey', 'T': 'Trust', 'O': 'Signature', 'X': 'Marker',
+                'k': 'SecretKey', 'b': 'SecretSubKey'}
+        pkts = []
+        for i, c in enumerate(shape):
+            p = E.VObj(CLS[c], 'p%d%s' % (i, c))
+            r.set(p.ref, 'header', E.VObj(T + 'Header', 'h%d' % i))
+            r.set('h%d' % i, '_tag', E.VInt(PTAG[tags[c]], enum='pgpy.constants.PacketTag'))
+            pkts.append(p)
+        NB = len(shape)
+        buf = ex.new_buf(st, z3.Const('BODY', B))
+        st.pc += [z3.Length(st.heap[buf.cell]) == NB]          # one abstract octet stands for one packet
+        d = E.VDict([(E.VStr(s='magic'), E.VNone()), (E.VStr(s='headers'), E.VNone()), (E.VStr(s='body'), buf), (E.VStr(s='crc'), E.VNone())])
+        r.hook('pgpy.types.Armorable', 'ascii_unarmor', scn.method_hook(lambda ex, st, o, a: [(st, d)]))
+
+        def packet(ex, st, c, a):
+            n = st.ghost.get('nread', 0)
+            st.ghost['nread'] = n + 1
+            S = st.heap[a[0].cell]
+            st.heap[a[0].cell] = z3.Extract(S, 1, z3.Length(S) - 1)
+            return [(st, pkts[n])]
+        r.hook(T + 'Packet', '__call__', packet)
+        made = {'n': 0}
+
+        def mk(cls, prefix):
+            def h(ex, st, c, a):
+                k = st.ghost.get('made_' + prefix, 0)
+                st.ghost['made_' + prefix] = k + 1
+                return [(st, E.VObj(cls, '%s%d' % (prefix, k)))]
+            return h
+        r.hook(KEY, '__call__', mk(KEY, 'newkey'))
+        r.hook(UID, '__call__', mk(UID, 'uid'))
+        r.hook(SIG, '__call__', mk(SIG, 'sig'))
+
+        def attach(ex, st, o, a):
+            st.ghost['attached'] = st.ghost.get('attached', ()) + ((str(o.ref), str(a[0].ref) if isinstance(a[0], E.VObj) else repr(a[0])),)
+            if isinstance(a[0], E.VObj) and a[0].cls in (CLS['K'], CLS['B'], CLS['k'], CLS['b']):
+                st.heap[(o.ref, '_key')] = a[0]
+            return [(st, o)]
+        for c in (KEY, UID, SIG):
+            r.hook(c, '__or__', scn.method_hook(attach))
+        pk_of = lambda st, o: st.heap.get((o.ref, '_key'))
+        r.hook(KEY, 'is_primary', lambda ex, st, o, a: [(st, E.VBool(isinstance(pk_of(st, o), E.VObj) and pk_of(st, o).cls in (CLS['K'], CLS['k'])))])
+        r.hook(KEY, 'is_public', lambda ex, st, o, a: [(st, E.VBool(not (isinstance(pk_of(st, o), E.VObj) and pk_of(st, o).cls in (CLS['k'], CLS['b']))))])
+        idof = {'p%d%s' % (i, c): ident[i] for i, c in enumerate(shape)}
+        r.hook(KEY, 'fingerprint', lambda ex, st, o, a: [(st, E.VObj('pgpy.types.Fingerprint', 'fp-' + idof.get(str(pk_of(st, o).ref) if isinstance(pk_of(st, o), E.VObj) else '', '?')))])
+        r.hook('pgpy.types.Fingerprint', 'keyid', lambda ex, st, o, a: [(st, E.VStr(s='ID-' + str(o.ref)))])
+        # ---- expected attachments, computed from the shape by the RFC 4880 11.1 grammar
+        want, keyobj, cur, last, ku, ks, nk = [], None, None, None, 0, 0, 0
+        for i, c in enumerate(shape):
+            ref = 'p%d%s' % (i, c)
+            if c in 'TO':
+                continue                    # trust packets are filtered out; an unknown-version signature is skipped
+            if c == 'X':
+                last = None                 # what follows an unknown packet belongs to it: dropped
+                continue
+            if isprim(c):
+                keyobj = 'self' if nk == 0 else 'newkey%d' % (nk - 1)
+                nk += 1
+                want.append((keyobj, ref))
+                last = cur = keyobj
+                pending = None
+            elif issub(c):
+                sub = 'newkey%d' % (nk - 1)
+                nk += 1
+                want.append((sub, ref))
+                last = sub
+                pending = (cur, sub)
+            elif c in 'UA':
+                u = 'uid%d' % ku
+                ku += 1
+                want.append((u, ref))
+                last = u
+                pending = (cur, u)
+            elif c == 'S':
+                if last is None:
+                    continue                # a signature after an unknown packet is dropped with it (no wrapper is made)
+                sname = 'sig%d' % ks
+                ks += 1
+                want.append((sname, ref))
+                want.append((last, sname))
+            # an identity / subkey is filed under its primary key once its own signatures are on it
+            nxt = shape[i + 1] if i + 1 < len(shape) else None
+            if not isprim(c) and (nxt is None or nxt not in 'ST' or (nxt == 'T' and all(x in 'T' for x in shape[i + 1:i + 2]) and (i + 2 >= len(shape) or shape[i + 2] != 'S'))):
+                pass
+        for pi, (s, v) in enumerate(r.call(me, [E.VBytes(z3.Const('INPUT', B))])):
+            if isinstance(v, E.Raise):
+                r.oblige(s, 'safety(%s)/p%d' % (v.exc.split(':')[0], pi), z3.BoolVal(False), v.where)
+                continue
+            att = list(s.ghost.get('attached', ()))
+            r.oblige(s, 'every-packet-was-read/p%d' % pi, z3.BoolVal(s.ghost.get('nread', 0) == NB))
+            # (1) every kept packet goes into its own wrapper / the key, every signature onto the object before it
+            for w in want:
+                r.oblige(s, 'attached:%s<-%s/p%d' % (w[0], w[1], pi), z3.BoolVal(w in att))
+            # (2) identities and subkeys are filed under the most recent primary key, after their signatures
+            cur = None
+            nk2 = ku2 = 0
+            for i, c in enumerate(shape):
+                if isprim(c):
+                    cur = 'self' if nk2 == 0 else 'newkey%d' % (nk2 - 1)
+                    nk2 += 1
+                elif issub(c):
+                    child = 'newkey%d' % (nk2 - 1)
+                    nk2 += 1
+                    r.oblige(s, 'subkey-%s-filed-under-%s/p%d' % (child, cur, pi), z3.BoolVal((cur, child) in att))
+                elif c in 'UA':
+                    child = 'uid%d' % ku2
+                    ku2 += 1
+                    r.oblige(s, 'identity-%s-filed-under-%s/p%d' % (child, cur, pi), z3.BoolVal((cur, child) in att))
+            # (3) nothing else is attached anywhere, and dropped packets (trust, opaque) are attached nowhere
+            extra = [a for a in att if a not in want and not any(a == (k, ch) for k in ['self'] + ['newkey%d' % j for j in range(8)] for ch in ['newkey%d' % j for j in range(8)] + ['uid%d' % j for j in range(8)])]
+            r.oblige(s, 'nothing-else-attached/p%d' % pi, z3.BoolVal(not extra))
+            dropped = ['p%d%s' % (i, c) for i, c in enumerate(shape) if c in 'TOX']
+            r.oblige(s, 'trust-and-unknown-packets-are-attached-nowhere/p%d' % pi, z3.BoolVal(not any(a[1] in dropped for a in att)))
+            # (4) one entry per primary key found, in order: this key first, then the further keys of the blob (the code's attempt to
+            # drop the entry of this key itself has no effect - recorded as an observation in DESIGN.md, harmless for C14)
+            nprim = shape.count('K') + shape.count('k')
+            vals = [x for _, x in v.of(s)] if isinstance(v, E.VDict) else None
+            r.oblige(s, 'returns-one-entry-per-primary-key-in-order/p%d' % pi,
+                     z3.BoolVal(vals is not None and [str(x.ref) for x in vals] == ['self'] + ['newkey%d' % j for j in range(8)][:0] + [w for w in
+                                [('newkey%d' % j) for j in range(8)] if any(a == (w, 'p%d%s' % (i, shape[i])) for i in range(len(shape)) if shape[i] in 'Kk' for a in att)][:max(0, nprim - 1)]
+                                if nprim else vals == []))
+        return r.result()
+    return Scenario(label, KEY + '.parse', gen, props=('C14',))
+
+
+_base_scn_kp2 = scenarios
+
+
+def scenarios():
+    shapes = [('key with identities and subkeys', 'KSUSSASBSBS'), ('trust packets interleaved', 'KTUTSTBST'), ('two keys', 'KUSBSKUS'), ('two keys, subkey and second identity on the second', 'K1USK2USBSUS'),
+              ('bare key', 'K'), ('unknown-version signature', 'KUSOSBS'), ('unknown packet', 'KUSXSBS'),
+              ('public keyring then the secret form of its first key', 'K1USB3SK2USk1USb3S')]
+    return _base_scn_kp2() + [key_parse(n, sh) for n, sh in shapes]
